@@ -139,3 +139,52 @@ func ZZ_C10_witness() {
 	zzMerge(2)
 	vpAssert(false, "witness")
 }
+
+// C10/C18-close: writers racing with the real DB.Close: every writer returns
+// exactly once with nil, the injected journal error or ErrClosed; Close
+// returns; nothing deadlocks; a write acknowledged with nil is in the buffer.
+func ZZ_C10_merge2_close() {
+	const nw = 2
+	zzGroups, zzInGroup = nil, 0
+	zzFreeSmall = vpChoose(2) == 1
+	zzJournalFail = make([]bool, nw) // journal failures are the subject of ZZ_C10_merge2/3
+	db := zzLiveDB()
+	db.seq = 100
+	db.batchPool.New = newBatch
+	db.mem = &memDB{db: db, DB: memdb.New(db.s.icmp, 1<<16), ref: 1}
+	mem := db.mem
+	results := make([]error, nw)
+	done := make([]int, nw)
+	for i := 0; i < nw; i++ {
+		i := i
+		noMerge := vpChoose(2) == 1
+		go func() {
+			results[i] = db.Put([]byte{byte('a' + i)}, []byte("v"), &opt.WriteOptions{NoWriteMerge: noMerge})
+			done[i]++
+		}()
+	}
+	var cerr error
+	closed := 0
+	go func() {
+		cerr = db.Close()
+		closed++
+	}()
+	vpJoin()
+	vpAssert(closed == 1 && cerr == nil, "close-returns-nil")
+	for i := 0; i < nw; i++ {
+		vpAssert(done[i] == 1, "every-writer-returns-once")
+		vpAssert(results[i] == nil || results[i] == errZZFault || results[i] == ErrClosed, "writer-gets-nil-fault-or-closed")
+		_, err := mem.Get(makeInternalKey(nil, []byte{byte('a' + i)}, keyMaxSeq, keyTypeSeek))
+		_ = err
+	}
+	// acknowledged writes are in the buffer, with distinct sequence numbers
+	acked := 0
+	for i := 0; i < nw; i++ {
+		if results[i] == nil {
+			acked++
+			_, _, err := mem.Find(makeInternalKey(nil, []byte{byte('a' + i)}, keyMaxSeq, keyTypeSeek))
+			vpAssert(err == nil, "acknowledged-write-is-in-the-buffer")
+		}
+	}
+	vpAssert(mem.Len() >= acked, "buffer-holds-the-acknowledged-writes")
+}
